@@ -574,5 +574,14 @@ func TestAAAColdStart(t *testing.T) {
 	ev.Bulk("coldstart/first-broadcast-calls-of-the-process", 16, 16)
 }
 
-func TestC08(t *testing.T)    { rp.RunAll(t, props()...) }
+func TestC08(t *testing.T) {
+	var idle chan string
+	if !ev.Replaying() && ev.Shard() == 0 {
+		idle = startIdleListener()
+	}
+	rp.RunAll(t, props()...)
+	if idle != nil {
+		finishIdleListener(t, idle)
+	}
+}
 func TestReplay(t *testing.T) { rp.ReplayAll(t, props()...) }
